@@ -29,6 +29,10 @@ BaseTx(k, s) == [k |-> k, s |-> s, n |-> 0, bad |-> "", cfg |-> NoCfg, b |-> 0, 
 Op(o, tx, rn) == [op |-> o, tx |-> tx, rn |-> rn]
 NoIns == BaseTx("none", NoAddr)
 
+(* malformed DKG payloads name one fixed eon and one fixed peer: the parse error comes first *)
+BadEon == CHOOSE e \in Eons : \A f \in Eons : e <= f
+BadPeer(s) == CHOOSE r \in Addrs : r # s
+
 AlphabetSet ==
     (IF "vote" \in Kinds THEN
         {Op("tx", [BaseTx("vote", s) EXCEPT !.cfg = Cands[i]], "fresh") : s \in Addrs, i \in DOMAIN Cands}
@@ -53,11 +57,11 @@ AlphabetSet ==
         (* every structural defect of every payload type (app/messages.go, batchconfig.go, deliverCheckIn) *)
         {Op("tx", [BaseTx("vote", s) EXCEPT !.cfg = Cands[1], !.bad = d], "fresh") : s \in Addrs, d \in {"dupAddr", "badAddrLen"}} \cup
         {Op("tx", [BaseTx("checkin", s) EXCEPT !.key = k, !.bad = d], "fresh") : s \in Addrs, k \in CheckKeys, d \in {"badValKey", "badEncKey"}} \cup
-        {Op("tx", [BaseTx(k, s) EXCEPT !.eon = e, !.to = <<r>>, !.bad = d], "fresh") :
-            k \in {"eval", "apol"}, s \in Addrs, r \in Addrs, e \in Eons, d \in {"lenMismatch", "dupAddr", "badAddrLen"}} \cup
-        {Op("tx", [BaseTx("acc", s) EXCEPT !.eon = e, !.to = <<r>>, !.bad = d], "fresh") :
-            s \in Addrs, r \in Addrs, e \in Eons, d \in {"dupAddr", "badAddrLen"}} \cup
-        {Op("tx", [BaseTx("commit", s) EXCEPT !.eon = e, !.gm = 1, !.bad = "badPoint"], "fresh") : s \in Addrs, e \in Eons}
+        {Op("tx", [BaseTx(k, s) EXCEPT !.eon = BadEon, !.to = <<BadPeer(s)>>, !.bad = d], "fresh") :
+            k \in {"eval", "apol"}, s \in Addrs, d \in {"lenMismatch", "dupAddr", "badAddrLen"}} \cup
+        {Op("tx", [BaseTx("acc", s) EXCEPT !.eon = BadEon, !.to = <<BadPeer(s)>>, !.bad = d], "fresh") :
+            s \in Addrs, d \in {"dupAddr", "badAddrLen"}} \cup
+        {Op("tx", [BaseTx("commit", s) EXCEPT !.eon = BadEon, !.gm = 1, !.bad = "badPoint"], "fresh") : s \in Addrs}
      ELSE {}) \cup
     (IF "replay" \in Kinds THEN
         {Op("tx", [BaseTx("seen", s) EXCEPT !.b = b], "replay") : s \in Addrs, b \in SeenBlocks}
